@@ -2,10 +2,8 @@ package c06
 
 import (
 	"fmt"
-	"reflect"
 	"runtime"
 	"sync"
-	"unsafe"
 
 	"verifh/engine"
 
@@ -79,23 +77,6 @@ func monoSeqCase(k *engine.Case) {
 	k.Logf("  %d ids, first %s last %s", total, fields(ids[0]), fields(ids[total-1]))
 }
 
-// monoStepField returns a pointer to the unexported step counter of a *MonoNode (nil
-// when the type has no int64 field of that name). It is used only to put the node into a
-// state that 4000-odd calls inside the current millisecond would also reach: under the
-// race detector one call costs about a microsecond, so the machine never gets there by
-// itself and the wrap-and-spin branch would go unobserved.
-func monoStepField(n snowflake.Node) *int64 {
-	v := reflect.ValueOf(n)
-	if v.Kind() != reflect.Ptr || v.Elem().Kind() != reflect.Struct {
-		return nil
-	}
-	f := v.Elem().FieldByName("step")
-	if !f.IsValid() || f.Kind() != reflect.Int64 || !f.CanAddr() {
-		return nil
-	}
-	return (*int64)(unsafe.Pointer(f.UnsafeAddr()))
-}
-
 // monoWrapCase: single caller; again and again the step counter is advanced to a few
 // steps below 4096 right after a call (the state of a caller that had been that much
 // faster) and a short burst follows, so that the wrap falls inside one millisecond
@@ -119,8 +100,7 @@ func monoWrapCase(k *engine.Case) {
 		k.Inconclusive("NewMonoNode refused a node number inside the configured width")
 		return
 	}
-	step := monoStepField(n)
-	if step == nil {
+	if !snowflake.VerifMonoPresetStep(n, 0) {
 		k.Count("mono_step_preset_unavailable", 1)
 		return
 	}
@@ -131,7 +111,7 @@ func monoWrapCase(k *engine.Case) {
 		left := int64(1 + r.Intn(12)) // calls until the counter is at 4095
 		m := int(left) + 2 + r.Intn(6)
 		first := n.Generate()
-		*step = stepMax - left
+		snowflake.VerifMonoPresetStep(n, stepMax-left)
 		for i := 0; i < m; i++ {
 			ids[i] = n.Generate()
 		}
